@@ -98,7 +98,9 @@ def compareBuf (r : ResizeReq) (alphaPath : Bool) (model got : Array Int) : Opti
       if ¬ simd ∧ ¬ alphaPath then return some s!"comp {i}: model={a} got={b}"
       let fa := f64OfF32Bits a
       let fb := f64OfF32Bits b
-      let tol := 8.0 * ulp32 (if fa.abs > fb.abs then a else b) + 1e-9 * mabs
+      -- a few ulps of the result plus about two ulps of the largest intermediate value (two-pass resizes store
+      -- the first pass as f32: re-association differences of that pass are amplified by cancellation in the second)
+      let tol := 8.0 * ulp32 (if fa.abs > fb.abs then a else b) + 1e-6 * mabs
       if (fa - fb).abs ≤ tol then continue
       return some s!"comp {i}: model={fa} got={fb} (bits {a} / {b})"
     | _ =>
